@@ -121,6 +121,19 @@ func init() {
 	for _, a := range workload.Aliasing {
 		mutators = append(mutators, struct{ Src, In string }{a.Src, a.In})
 	}
+	// argument-keyed caches inside a *Code (compiled regular expressions): expressions and flags
+	// taken from data, valid and invalid ones that a cache key might confuse, in an order where a
+	// failing call comes before and after a succeeding look-alike
+	flagsIn := `["x","gx",null,"x","g","gx","i","xi","ix","n","gn","xn","nx","l","s","sx","xs","","ii","gg","x"]`
+	resIn := `["a","(","a","[","[a]","(?i)a","a","(","a+","a++","\\","\\d","(?<n>a)","(?<n>a","(?<n>a)"]`
+	for _, f := range []string{`test("an"; $f)`, `[match("an"; $f)] | length`, `capture("(?<x>a)"; $f)`, `[scan("a"; $f)]`, `split("a"; $f)`, `[splits("a"; $f)]`, `sub("a"; "b"; $f)`, `gsub("a"; "b"; $f)`, `test(["an", $f])`, `[match(["a", $f])] | length`} {
+		mutators = append(mutators, struct{ Src, In string }{`[.[] as $f | try ("banana" | ` + f + `) catch "E"]`, flagsIn})
+		mutators = append(mutators, struct{ Src, In string }{`.[] as $f | try ("bAnana" | ` + f + `) catch .`, flagsIn})
+	}
+	for _, f := range []string{`test($f)`, `[match($f; "g")] | length`, `[scan($f)]`, `split($f; null)`, `sub($f; "b")`, `gsub($f; "b"; "x")?`, `capture($f)`, `test($f; "x")`, `test($f; "i")`} {
+		mutators = append(mutators, struct{ Src, In string }{`[.[] as $f | try ("banana" | ` + f + `) catch "E"]`, resIn})
+		mutators = append(mutators, struct{ Src, In string }{`.[] as $f | try ("banana" | ` + f + `) catch .`, resIn})
+	}
 	for _, src := range []string{`sort`, `reverse`, `unique`, `.[3:20]`, `.[3:20] | .[0] = 99`, `.[:5] + [0]`, `(.[:5] | . + [1,2]), .`, `[.[:5], .[30:]] | add`, `.[10:] = [1]`, `del(.[5:30])`, `map(. + 1)`, `group_by(. % 3)`, `.[] |= . + 1`, `[limit(20; .[])]`, `to_entries | map(.value)`, `[.[] | select(. > 20)]`, `.[39] = 1, .[40] = 1, .[45] = 1`, `.[:40] | .[40] = 1`, `flatten`, `tojson | fromjson`, `min, max, add`, `[.[1:], .[:1]] | add | length`} {
 		mutators = append(mutators, struct{ Src, In string }{src, bigArr})
 	}
